@@ -432,6 +432,11 @@ func (m *Machine) tick() (bool, error) {
 				m.Balances[a][v] = machine.Zero
 			}
 		case machine.Monetary:
+			if v.Amount.Ltz() {
+				return true, fmt.Errorf(
+					"cannot save a monetary with a negative amount: [%s %s]",
+					string(v.Asset), v.Amount)
+			}
 			m.Balances[a][v.Asset] = m.Balances[a][v.Asset].Sub(v.Amount)
 		default:
 			panic(fmt.Errorf("invalid value type: %T", v))
